@@ -10,6 +10,7 @@ import (
 	"path/filepath"
 	"sort"
 	"strings"
+	"sync"
 )
 
 // The sensitivity corpus: scratch variants of /repo in which one rule instance is broken. Each variant must still
@@ -88,8 +89,12 @@ var corpus = []variant{
 	{"C11-unlocked-stat", "C11", "C11.lockset", []edit{{"pkg/fs/file.go", "func (f *File) Stat()", "	f.ioLock.Lock()\n	defer f.ioLock.Unlock()\n\n", ""}}},
 	{"C11-new-lock-order-cycle", "C11", "C11.lock-order", []edit{{"pkg/tape/manager.go", "func (m *TapeManager) Close()", "	defer m.physicalLock.Unlock()\n", "	defer m.physicalLock.Unlock()\n\n	m.readerLock.Lock()\n	defer m.readerLock.Unlock()\n"}}},
 	// C12
+	{"C14-trunc-without-rewind", "C14", "C14.write-cursor-after-load", []edit{{"pkg/fs/file.go", "func (f *File) enterWriteMode()", "			// Loading the existing content left the cursor behind it; the emptied buffer starts at zero, also when appending\n			if _, err := f.writeBuf.Seek(0, io.SeekStart); err != nil {\n				return err\n			}\n", ""}}},
+	{"C13-update-revives-tombstone", "C13", "C13.create-resets-all-columns", []edit{{"pkg/persisters/metadata.go", "func (p *MetadataPersister) UpdateHeaderMetadata(", "boil.Blacklist(models.HeaderColumns.Deleted)", "boil.Infer()"}}},
+	{"C05-delete-record-not-pax", "C05", "C05.pax", []edit{{"pkg/operations/delete.go", "func (o *Operations) Delete(", "		hdr.Format = tar.FormatPAX // The STFS records below need PAX, whatever format the entry was archived in\n", ""}}},
 	{"C12-like-filter-removed", "C12", "C12.like-safety", []edit{{"pkg/persisters/metadata.go", "func (p *MetadataPersister) GetHeaderChildren(", "		if !strings.HasPrefix(hdr.Name, childPrefix) {\n			continue\n		}\n\n", ""}}},
-	{"C12-ancestry-guard-removed", "C12", "C12.ancestry-guard", []edit{{"pkg/fs/filesystem.go", "", "	if strings.HasPrefix(newname, strings.TrimSuffix(oldname, string(filepath.Separator))+string(filepath.Separator)) {\n		return os.ErrInvalid\n	}\n", "	_ = strings.TrimSuffix\n"}}},
+	{"C12-ancestry-guard-removed", "C12", "C12.ancestry-guard", []edit{{"pkg/fs/filesystem.go", "", "	if strings.HasPrefix(\n\t\tstrings.TrimPrefix(newname, string(filepath.Separator)),\n\t\tstrings.TrimPrefix(strings.TrimSuffix(oldname, string(filepath.Separator)), string(filepath.Separator))+string(filepath.Separator),\n\t) {\n\t\treturn os.ErrInvalid\n\t}\n", "	_ = strings.TrimSuffix\n"}}},
+	{"C12-ancestry-guard-textual", "C12", "C12.ancestry-guard", []edit{{"pkg/fs/filesystem.go", "", "		strings.TrimPrefix(newname, string(filepath.Separator)),\n\t\tstrings.TrimPrefix(strings.TrimSuffix(oldname, string(filepath.Separator)), string(filepath.Separator))+string(filepath.Separator),\n", "		newname,\n\t\tstrings.TrimSuffix(oldname, string(filepath.Separator))+string(filepath.Separator),\n"}}},
 	{"C12-descendants-not-moved", "C12", "C12.subtree-coverage", []edit{{"pkg/operations/move.go", "", "		headersToMove = append(headersToMove, dbhdrs...)\n", "		_ = dbhdrs\n"}}},
 	// C13
 	{"C13-parent-kind-unchecked", "C13", "C13.parent-is-directory", []edit{{"pkg/fs/filesystem.go", "func (f *STFS) Mkdir(", "	} else if parent.Typeflag != tar.TypeDir {\n", "	} else if parent == nil {\n"}}},
@@ -234,35 +239,60 @@ func firstLine(text, prefix string) string {
 	return ""
 }
 
+// selftestWorkers: the corpora run as sub-processes on scratch copies; this many at a time.
+const selftestWorkers = 8
+
 func selftestSummary(p *Property, repo, verif string) []selftestResult {
-	var out []selftestResult
+	var tasks []func() selftestResult
 	for _, v := range corpus {
 		if v.Prop != p.ID {
 			continue
 		}
-		r := runVariant(v, repo, verif)
-		fmt.Printf("sensitivity %-40s %-8s %s\n", v.Name, r.Status, r.Detail)
-		out = append(out, r)
+		v := v
+		tasks = append(tasks, func() selftestResult { return runVariant(v, repo, verif) })
 	}
-	out = append(out, seededRegression(p, repo, verif)...)
-	out = append(out, benignRegression(p, repo, verif)...)
+	tasks = append(tasks, seededTasks(p, repo, verif)...)
+	tasks = append(tasks, benignTasks(p, repo, verif)...)
+	out := make([]selftestResult, len(tasks))
+	sem := make(chan struct{}, selftestWorkers)
+	var wg sync.WaitGroup
+	for i, t := range tasks {
+		wg.Add(1)
+		sem <- struct{}{}
+		go func(i int, t func() selftestResult) {
+			defer wg.Done()
+			defer func() { <-sem }()
+			out[i] = t()
+		}(i, t)
+	}
+	wg.Wait()
+	for _, r := range out {
+		fmt.Printf("sensitivity %-40s %-8s %s\n", r.Name, r.Status, r.Detail)
+	}
 	return out
 }
 
 // benignRegression applies every behaviour-preserving refactoring under <verif>/benign to a scratch copy and requires
 // this property's check to stay silent (exit 0): a report there is a false alarm of the checker.
-func benignRegression(p *Property, repo, verif string) []selftestResult {
-	var out []selftestResult
+func benignTasks(p *Property, repo, verif string) []func() selftestResult {
+	var out []func() selftestResult
 	patches, _ := filepath.Glob(filepath.Join(verif, "benign", "*", "patch.diff"))
 	sort.Strings(patches)
 	for _, pf := range patches {
+		pf := pf
+		out = append(out, func() selftestResult { return benignOne(p, repo, verif, pf) })
+	}
+	return out
+}
+
+func benignOne(p *Property, repo, verif, pf string) selftestResult {
+	{
 		name := "benign/" + filepath.Base(filepath.Dir(pf))
 		res := selftestResult{Name: name, Rule: p.ID + " must stay silent"}
 		tmp, err := os.MkdirTemp("", "stfs-verif-")
 		if err != nil {
 			res.Status, res.Detail = "broken", err.Error()
-			out = append(out, res)
-			continue
+			return res
 		}
 		scratch := filepath.Join(tmp, "repo")
 		tverif := filepath.Join(tmp, "verif")
@@ -300,16 +330,14 @@ func benignRegression(p *Property, repo, verif string) []selftestResult {
 			}
 		}
 		os.RemoveAll(tmp)
-		fmt.Printf("sensitivity %-40s %-8s %s\n", name, res.Status, res.Detail)
-		out = append(out, res)
+		return res
 	}
-	return out
 }
 
 // seededRegression re-applies every independently seeded change under <verif>/seeded that this property's check is
 // recorded to report (meta.json caught_by) to a scratch copy of the repository and requires it to be reported again.
-func seededRegression(p *Property, repo, verif string) []selftestResult {
-	var out []selftestResult
+func seededTasks(p *Property, repo, verif string) []func() selftestResult {
+	var out []func() selftestResult
 	dirs, _ := filepath.Glob(filepath.Join(verif, "seeded", "*", "meta.json"))
 	sort.Strings(dirs)
 	for _, mf := range dirs {
@@ -332,13 +360,20 @@ func seededRegression(p *Property, repo, verif string) []selftestResult {
 		if !mine {
 			continue
 		}
+		mf := mf
+		out = append(out, func() selftestResult { return seededOne(p, repo, verif, mf) })
+	}
+	return out
+}
+
+func seededOne(p *Property, repo, verif, mf string) selftestResult {
+	{
 		name := "seeded/" + filepath.Base(filepath.Dir(mf))
 		res := selftestResult{Name: name, Rule: p.ID}
 		tmp, err := os.MkdirTemp("", "stfs-verif-")
 		if err != nil {
 			res.Status, res.Detail = "broken", err.Error()
-			out = append(out, res)
-			continue
+			return res
 		}
 		scratch := filepath.Join(tmp, "repo")
 		tverif := filepath.Join(tmp, "verif")
@@ -376,10 +411,8 @@ func seededRegression(p *Property, repo, verif string) []selftestResult {
 			}
 		}
 		os.RemoveAll(tmp)
-		fmt.Printf("sensitivity %-40s %-8s %s\n", name, res.Status, res.Detail)
-		out = append(out, res)
+		return res
 	}
-	return out
 }
 
 func runSelftest(p *Property, repo, verif string) int {
